@@ -1795,7 +1795,7 @@ func init() {
 	extraCommands["c16child"] = c16ChildMain
 	register(&Property{
 		ID: "C16", Imports: "V.Lib V.C16_Model", Judge: "judge", Shard: 40,
-		Rule: "histories over {Start, Restart (ok / failing at parse, setup, MakeServers, OnStartup, Listen, listener hand-over, OnRestart, old OnShutdown), Instance.Stop, Stop, ShutdownCallbacks, executeShutdownCallbacks, Wait probe} on a probe server type with recording callbacks and fake servers (graceful or not, with/without inheritable listeners): systematic scenarios per failure stage + random histories (<= 8 ops quick, <= 14 thorough); servers whose Stop returns a drain-timeout error, configurations whose set-up panics, old instances with nothing to hand over; child processes of the harness run a history, call casket.TrapSignals and receive SIGINT/SIGTERM sequences (later signals while the first shutdown callback is held); conc: >= 3 live instances, executeShutdownCallbacks with Instance.Stop of 1-2 of them launched inside the first shutdown callback; non-trivial = at least one successful start and two operations with events (hist) / at least two events after the signal (child) / at least four events during the shutdown (conc)",
+		Rule: "histories over {Start, Restart (ok / failing at parse, setup, MakeServers, OnStartup, Listen, listener hand-over, OnRestart, old OnShutdown), Instance.Stop, Stop, ShutdownCallbacks, executeShutdownCallbacks, Wait probe} on a probe server type with recording callbacks and fake servers (graceful or not, with/without inheritable listeners): systematic scenarios per failure stage + random histories (<= 8 ops quick, <= 14 thorough); servers whose Stop returns a drain-timeout error, configurations whose set-up panics, old instances with nothing to hand over; child processes of the harness run a history, call casket.TrapSignals and receive SIGINT/SIGTERM sequences (later signals while the first shutdown callback is held); conc: >= 3 live instances, executeShutdownCallbacks with Instance.Stop of 1-2 of them launched inside the first shutdown callback; race: Instance.Restart (ok / failing) of one of 1-3 live instances held inside its first OnRestart / new OnStartup / old OnShutdown callback while executeShutdownCallbacks runs to completion; non-trivial = at least one successful start and two operations with events (hist) / at least two events after the signal (child) / at least four events during the shutdown (conc) / the gate was reached and at least four events (race)",
 		Gen:    c16Gen,
 		Decode: func(raw json.RawMessage) (interface{}, error) { in := &c16In{}; return in, json.Unmarshal(raw, in) },
 		Run:    c16Run,
